@@ -253,8 +253,9 @@ std::vector<std::pair<T, T>> make_set(const std::string& set, uint32_t g) {
     for (int k = 0; k <= 9; k++) sizes.push_back(k);
     for (int k = 63; k <= 65; k++) sizes.push_back(k);
     i128 span = hi - lo;
-    if (span > Lim<T>::maxsz()) span = Lim<T>::maxsz();
-    sizes.push_back(span / 2);
+    const i128 i64max = (i128)std::numeric_limits<int64_t>::max();
+    if (span > i64max) span = i64max;
+    sizes.push_back(span / 2); // 2^62 for the 64-bit types
     if (sizeof(T) < 8) sizes.push_back(hi - lo); // the whole type range fits the size type for 16/32-bit types
     for (i128 a : anchors()) {
       for (i128 sz : sizes) {
@@ -264,11 +265,20 @@ std::vector<std::pair<T, T>> make_set(const std::string& set, uint32_t g) {
       add(a, a - 1);
     }
     add(hi, lo);
-  } else if (set == "huge") { // 64-bit only: the largest sizes the size type can hold
+  } else if (set == "huge") { // 64-bit only: sizes at the limit of the size type (and of int64_t for unsigned types)
+    std::vector<i128> sizes;
+    const i128 i64max = (i128)std::numeric_limits<int64_t>::max();
+    for (int d = 0; d <= 1; d++) sizes.push_back(Lim<T>::maxsz() - d);
+    if (!std::is_signed<T>::value) {
+      sizes.push_back(i64max);
+      sizes.push_back(i64max - 1);
+      sizes.push_back(i64max + 6);
+    }
+    sizes.push_back(i64max - 1000);
     for (i128 a : anchors())
-      for (int d = 0; d <= 1; d++) {
-        add(a, a + Lim<T>::maxsz() - d);
-        add(a - (Lim<T>::maxsz() - d), a);
+      for (i128 sz : sizes) {
+        add(a, a + sz);
+        add(a - sz, a);
       }
   } else if (set == "gran") { // every start offset mod g (both signs) x sizes 0..3g+1
     long from = std::is_signed<T>::value && g <= 16 ? -(long)g : 0;
